@@ -5,9 +5,10 @@ CONSTANTS
     Band = 8
     Chunks = 256
     ASel = "dense"
+    CoreDLt = FALSE
     Emit = TRUE
 INVARIANTS
-    OffsetAgrees
+    OffsetAgreesCore
     AllLemmas
     AddSubWrap
     NegativeWitness
